@@ -98,6 +98,7 @@ func drawSpec(r *rng, name string, b specBias) *genParser {
 			Lookahead: r.chance(2, 3), Labels: r.chance(2, 3), Throws: r.intn(100) < b.throws, Fold: r.chance(1, 3),
 			Unicode: r.intn(100) < b.unicode, AnyMatcher: r.chance(1, 2), Display: r.intn(100) < b.display,
 			NullableLoops: r.intn(100) < b.nullableLoops, LeftRec: lr, LeftRecDirect: b.lrDirect, LeftRecRunnable: true, StateBias: b.stateBias,
+			LongLits: r.chance(1, 3), BigClasses: r.chance(1, 3),
 		}
 		g := gen.Generate(r2{r}, cfg)
 		if g == nil {
